@@ -34,6 +34,7 @@ def run(ctx, chk):
     chk.rule("S7", "the byte count returned by a receive primitive is never discarded by its caller")
     chk.rule("S8", "a receive that returns 0 bytes (end of stream) leaves every receive loop")
     chk.rule("S9", "all tests of a message size against MAX_MSG_SIZE agree on the inclusive bound")
+    chk.rule("S11", "a clean `Disconnected` is reported only for 0 bytes at a message boundary")
     chk.rule("S3", "header/body receivers classify 0 bytes / short / invalid correctly")
     chk.rule("S4", "errno -> error class table equals the reference")
     chk.rule("S5", "request bodies are read by a looping receiver; a short body is an error")
@@ -49,6 +50,7 @@ def run(ctx, chk):
     _c01.w6(fb, _Renamed(chk, {"W6": "S10"}))
     s7s8(fb, chk)
     s9(fb, chk)
+    s11(fb, chk)
     n = lambda r: len([i for i in chk.instances if i[0] == r])
     chk.floor("S1", n("S1"), 7)
     chk.floor("S2", n("S2"), 4)
@@ -272,6 +274,48 @@ def s9(fb, chk):
     chk.floor("S9", n, 12)
 
 
+def s11(fb, chk):
+    """`Disconnected` means: the stream ended exactly at a message boundary.  It may be produced only by a message-level
+    receiver of the endpoint, for a receive that is the first one of that function, under the fact `0 bytes`."""
+    n = 0
+    for f in fb.fns.values():
+        if f.crate != "vhost" or "vhost_user" not in (f.file or "") or "::tests::" in f.key:
+            continue
+        m = None
+        for bi, b in enumerate(f.blocks):
+            if b["cleanup"]:
+                continue
+            for st in b["stmts"]:
+                if not (st["k"] == "assign" and st["rv"]["k"] == "agg" and st["rv"].get("variant") == "Disconnected"
+                        and (st["rv"].get("adt") or "").endswith("vhost_user::Error")):
+                    continue
+                if f.name in ("fmt", "should_reconnect", "clone", "eq") or (f.trait or "").endswith(("Display", "Debug", "From")):
+                    continue
+                n += 1
+                m = m or must_of(fb, f)
+                atoms = m.atoms_at(bi)
+                recvs = [(bb, t, c) for bb, t, c in sites(f, name=set(RECV_PRIMS))]
+                dom = m.cfg.dominators()
+                ok = False
+                why = "not guarded by `0 bytes received`"
+                for bb, t, c in recvs:
+                    call = m.sym.call_at(bb)
+                    zero = any((a[0] == "cmp" and a[1] == "Eq" and a[3][0] == "const" and a[3][1] == 0 and _is_count(a[2], call)) or
+                               (a[0] == "in" and not a[3] and set(a[2]) == {0} and _is_count(a[1], call)) for a in atoms)
+                    if not zero:
+                        continue
+                    first = not any(b2 != bb and b2 in dom.get(bb, ()) for b2, _t, _c in recvs)
+                    endpoint = (f.self_adt or "").endswith("::Endpoint")
+                    if first and endpoint:
+                        ok = True
+                    else:
+                        why = "the zero-byte receive is not the first receive of a message-level endpoint receiver (%s)" % f.short
+                chk.check(ok, "S11", "%s" % f.short, "Disconnected <= first receive of a message returned 0 bytes",
+                          "%s reports a clean disconnect %s: a stream that ends inside a message would be reported as "
+                          "a clean disconnect instead of an error" % (f.short, why), f.loc(st.get("line")))
+    chk.floor("S11", n, 1)
+
+
 def _is_count(t, call):
     while t[0] == "cast":
         t = t[1]
@@ -409,8 +453,16 @@ def s3(fb, chk):
         outs, sym = summ.paths(g)
         okp = [o for o in outs if o.ret is not None and ret_okness(o.ret) is True]
         good = bool(okp)
+        # the typed parts of the message (header, fixed body) are described by iovecs of length size_of::<X>(): all of
+        # them must have arrived in full before the message is accepted
+        gm = must_of(fb, g)
+        nfixed = 0
+        for bb, t, c in sites(g, name="recv_into_iovec_all"):
+            arr = gm.sym.arg_terms(bb)[1]
+            nfixed = len({s_ for s_ in subterms(arr) if s_[0] == "call" and s_[1] == "size_of"})
         for o in okp:
-            full = any(a[0] == "cmp" and a[1] in ("Eq", "Ge") and "recv_into_iovec_all" in show(a[2]) for a in o.atoms)
+            full = any(a[0] == "cmp" and a[1] in ("Eq", "Ge") and "recv_into_iovec_all" in show(a[2])
+                       and len([s_ for s_ in subterms(a[3]) if s_[0] == "call" and s_[1] == "size_of"]) >= max(1, nfixed) for a in o.atoms)
             valid = any(a[0] == "true" and a[1][0] == "call" and a[1][1] == "is_valid" for a in o.atoms)
             if not (full and valid):
                 good = False
